@@ -207,7 +207,9 @@ def index_array(a, idx):
         if isinstance(i, slice):
             if i.start is None and i.stop is None and i.step is None:
                 out.append(d)
-            elif isinstance(d, int) and i.step is None:
+            elif isinstance(d, int) and all(
+                    x is None or isinstance(x, int)
+                    for x in (i.start, i.stop, i.step)):
                 out.append(len(range(d)[i]))
             elif i.step is None and i.start is None \
                     and isinstance(i.stop, str) and isinstance(d, str) \
@@ -635,6 +637,10 @@ class Interp:
             return self.block(st.orelse, env) if st.orelse else None
         if isinstance(st, ast.For):
             it = self.expr(st.iter, env)
+            if isinstance(it, AArr) and it.shape \
+                    and isinstance(it.shape[0], int):
+                it = tuple(AArr(it.shape[1:]) if len(it.shape) > 1
+                           else ANpScal() for _ in range(it.shape[0]))
             if not isinstance(it, (tuple, list)):
                 raise Unsupported("loop over a non-concrete iterable")
             for x in it:
@@ -1046,6 +1052,10 @@ class Interp:
             new = args[0] if len(args) == 1 else tuple(args)
             return np_reshape(a, new)
         if name == "swapaxes":
+            if len(args) == 2 and all(isinstance(x, int) for x in args) \
+                    and _norm_axes(args[0], len(a.shape)) == \
+                    _norm_axes(args[1], len(a.shape)):
+                return a                 # swapping an axis with itself
             ax = _norm_axes(tuple(args[:2]), len(a.shape))
             sh = list(a.shape)
             sh[ax[0]], sh[ax[1]] = sh[ax[1]], sh[ax[0]]
@@ -1313,6 +1323,48 @@ class Interp:
         if name in ("np.issubdtype", "np.can_cast", "np.iscomplexobj",
                     "np.isrealobj"):
             return ABool()               # depends on the data's type
+        if name == "enumerate" and len(args) == 1:
+            it = args[0]
+            if isinstance(it, AArr) and it.shape \
+                    and isinstance(it.shape[0], int):
+                it = tuple(AArr(it.shape[1:]) if len(it.shape) > 1
+                           else ANpScal() for _ in range(it.shape[0]))
+            if not isinstance(it, (tuple, list)):
+                raise Unsupported("enumerate over a non-concrete iterable")
+            return tuple((i, x) for i, x in enumerate(it))
+        if name == "np.moveaxis" and isinstance(args[0], AArr) \
+                and len(args) == 3:
+            nd = len(args[0].shape)
+            src = _norm_axes(args[1], nd)[0]
+            dst = _norm_axes(args[2], nd)[0]
+            sh = list(args[0].shape)
+            d = sh.pop(src)
+            sh.insert(dst, d)
+            return AArr(tuple(sh))
+        if name == "np.put_along_axis" and len(args) >= 3:
+            arr, ind, vals = args[0], args[1], args[2]
+            axis = kw.get("axis", args[3] if len(args) > 3 else None)
+            if not isinstance(arr, AArr) or not isinstance(ind, AArr):
+                raise Unsupported("put_along_axis of non-arrays")
+            if len(arr.shape) != len(ind.shape):
+                raise ShapeError(
+                    f"put_along_axis: array rank {len(arr.shape)} and index "
+                    f"rank {len(ind.shape)} differ")
+            ax = _norm_axes(axis, len(arr.shape))[0]
+            for i, (p, q) in enumerate(zip(arr.shape, ind.shape)):
+                if i != ax:
+                    bdim(p, q)
+            if isinstance(vals, AArr):
+                bshape(ind.shape, vals.shape)
+            return None
+        if name == "np.count_nonzero" and isinstance(args[0], AArr):
+            axis = kw.get("axis", args[1] if len(args) > 1 else None)
+            if axis is None:
+                return AScal()
+            ax = _norm_axes(axis, len(args[0].shape))
+            out = tuple(d for i, d in enumerate(args[0].shape)
+                        if i not in ax)
+            return AArr(out) if out else ANpScal()
         if name == "np.arange" and len(args) == 1:
             return AIdx((args[0],))
         if name in ("np.all", "np.any") and isinstance(args[0], AArr):
